@@ -4,7 +4,7 @@ import os, glob
 COQ = os.path.join(os.path.dirname(os.path.dirname(os.path.abspath(__file__))), "coq")
 ready = [l.strip() for l in open(os.path.join(COQ, "READY")) if l.strip() and not l.startswith("#")]
 lines = ["-Q Gen Gen", "-Q Model Model", "-Q Proofs Proofs", "-Q Props Props", "Gen/Enums.v", "Gen/MusicTheory.v"]
-lines += ["Model/" + f for f in ["Base.v", "Seq.v", "Pairing.v", "Util.v", "Bars.v", "Store.v", "Tok.v", "Midi.v", "Comp.v", "Getters.v", "Show.v", "ShowX.v"]]
+lines += ["Model/" + f for f in ["Base.v", "Seq.v", "Pairing.v", "Util.v", "Bars.v", "Store.v", "ScaleDown.v", "Tok.v", "Midi.v", "Comp.v", "Getters.v", "Show.v", "ShowX.v"]]
 lines += ["Proofs/Sound_glue.v", "Proofs/Sig_glue.v"]          # shared library (sounding-set glue between the views)
 for p in ready:
     lines += sorted(os.path.relpath(f, COQ) for f in glob.glob(os.path.join(COQ, "Proofs", f"{p}_*.v")))
